@@ -702,7 +702,9 @@ func (vc *VC) convert(x *ssa.Convert) {
 			if bt, ok := st.Elem().Underlying().(*types.Basic); ok && bt.Kind() == types.Uint8 {
 				vc.gfact(Eq(sx("s_len", n), sx("slen", a)))
 			} else {
-				vc.gfact(Le(sx("s_len", n), sx("slen", a)))
+				// runes: between a quarter of the bytes (rounded up) and all of them
+				vc.gfact(And(Le(sx("s_len", n), sx("slen", a)), Le(sx("slen", a), sx("*", "4", sx("s_len", n)))))
+				vc.runeConvs = append(vc.runeConvs, [2]Term{a, n})
 			}
 			en, es := vc.e.elemArr(st.Elem())
 			vc.arrCur(en, es)
